@@ -28,6 +28,7 @@ from harness import txtok as T
 
 PROPERTY = "C06"
 DRIVERS = ["drv_c06", "drv_c05"]
+PROPS_MODULES = ["Buidl.Props.C06", "Buidl.Props.C06Compose"]
 ANCHORS = [
     ("buidl/tx.py", "Tx.verify_input"), ("buidl/tx.py", "Tx.sig_hash"), ("buidl/script.py", "Script.evaluate"),
     ("buidl/op.py", "op_checksig"), ("buidl/op.py", "op_checksigverify"), ("buidl/op.py", "op_checkmultisig"),
